@@ -1,5 +1,235 @@
 import QModel.Core
-/-! C01 — model (not built yet) -/
+import QGen.C01
+/-!
+# C01 — physicality verdicts (model of the verdict wiring of quara/objects/{state,povm,gate,mprocess,qoperation}.py
+and quara/utils/matrix_util.py `is_hermitian` / `is_positive_semidefinite`)
+
+Numbers are exact rationals (every float64 is one). `np.isclose(a, b, atol, rtol)` is `|a − b| ≤ atol + rtol·|b|`;
+complex moduli are compared squared. The relative tolerance of every call site is the GENERATED constant
+`QGen.C01.*_rtol` (regenerated from the source on every run); the absolute tolerance is the caller's.
+External kernels are parameters: the operator matrices (density matrix, POVM elements and their sum, Choi matrices)
+as computed by the code's own conversions (their correctness is C02), and the `np.linalg.eigvalsh` result.
+`none` = outside the modelled domain (size mismatch, relative tolerance against a complex reference).
+-/
 namespace QM.C01
-def handle (_args : List String) : Option String := none
+open QGen.C01
+
+def rabs (q : Rat) : Rat := if q < 0 then -q else q
+
+/-- `np.isclose(a, b, atol=atol, rtol=rtol)` for finite reals -/
+def isClose (a b atol rtol : Rat) : Bool := decide (rabs (a - b) ≤ atol + rtol * rabs b)
+
+/-- complex numbers as (re, im) -/
+abbrev C := Rat × Rat
+
+/-- `np.isclose(a, b, …)` for complex `a` and real `b`: `|a − b| ≤ t`, `t = atol + rtol·|b|`, compared squared -/
+def isCloseCR (a : C) (b atol rtol : Rat) : Bool :=
+  let t := atol + rtol * rabs b
+  decide (0 ≤ t) && decide ((a.1 - b) * (a.1 - b) + a.2 * a.2 ≤ t * t)
+
+/-- complex `a` against complex `b`: exact only for `rtol = 0` (`|b|` is irrational in general) -/
+def isCloseCC (a b : C) (atol rtol : Rat) : Option Bool :=
+  if rtol = 0 then
+    some (decide (0 ≤ atol) &&
+      decide ((a.1 - b.1) * (a.1 - b.1) + (a.2 - b.2) * (a.2 - b.2) ≤ atol * atol))
+  else none
+
+def allSome (l : List (Option Bool)) : Option Bool := (l.mapM id).map fun bs => bs.all id
+
+/-- a `d × d` complex matrix, row-major -/
+structure CMat where
+  d : Nat
+  e : List C
+
+def CMat.ok (M : CMat) : Bool := M.e.length = M.d * M.d
+
+/-- `np.trace` -/
+def CMat.trace (M : CMat) : Option C :=
+  ((List.range M.d).mapM fun i => M.e[i * M.d + i]?).map fun ds =>
+    (ds.foldl (fun acc z => acc + z.1) 0, ds.foldl (fun acc z => acc + z.2) 0)
+
+/-- `matrix.conj().T` -/
+def CMat.adjoint (M : CMat) : Option (List C) :=
+  (List.range (M.d * M.d)).mapM fun k => (M.e[(k % M.d) * M.d + k / M.d]?).map fun z => (z.1, -z.2)
+
+/-- matrix_util.is_hermitian: `allclose(matrix, adjoint, atol=atol, rtol=0.0)` -/
+def isHermitian (M : CMat) (atol : Rat) : Option Bool := do
+  if !M.ok then none
+  let adj ← M.adjoint
+  allSome ((M.e.zip adj).map fun (a, b) => isCloseCC a b atol mutil_is_hermitian_rtol)
+
+/-- the eigenvalue part of matrix_util.is_positive_semidefinite: eigenvalues with `isclose(λ, 0, atol, rtol=0)`
+are deleted, the rest must be `>= 0` -/
+def psdEig (eigs : List Rat) (atol : Rat) : Bool :=
+  eigs.all fun l => isClose l 0 atol mutil_is_psd_eig_rtol || decide (0 ≤ l)
+
+/-- matrix_util.is_positive_semidefinite(matrix, atol); `eigs` = `np.linalg.eigvalsh(matrix)` -/
+def psdVerdict (M : CMat) (eigs : List Rat) (atol : Rat) : Option Bool := do
+  let h ← isHermitian M atol
+  some (h && psdEig eigs atol)
+
+/-! ## State -/
+
+/-- State.is_trace_one: `np.isclose(np.trace(density), 1, atol=atol)` -/
+def stateTraceOne (rho : CMat) (atol : Rat) : Option Bool := do
+  let tr ← rho.trace
+  some (isCloseCR tr 1 atol state_is_trace_one_rtol)
+
+/-- QOperation.is_physical: `eq(atol_eq) and ineq(atol_ineq)` -/
+def physical (eq ineq : Bool) : Bool := eq && ineq
+
+def statePhysical (rho : CMat) (eigs : List Rat) (atolEq atolIneq : Rat) : Option Bool := do
+  let a ← stateTraceOne rho atolEq
+  let b ← psdVerdict rho eigs atolIneq
+  some (physical a b)
+
+/-! ## POVM -/
+
+def delta (d k : Nat) : Rat := if k / d = k % d then 1 else 0
+
+/-- Povm.is_identity_sum: `np.allclose(sum_matrix, identity, atol=atol)` -/
+def povmIdentitySum (S : CMat) (atol : Rat) : Option Bool :=
+  if !S.ok || S.d = 0 then none
+  else some (S.e.zipIdx.all fun (z, k) => isCloseCR z (delta S.d k) atol povm_is_identity_sum_rtol)
+
+/-- Povm.is_positive_semidefinite: every element -/
+def povmPsd (Ms : List CMat) (eigss : List (List Rat)) (atol : Rat) : Option Bool :=
+  if Ms.length ≠ eigss.length then none
+  else allSome ((Ms.zip eigss).map fun (M, eigs) => psdVerdict M eigs atol)
+
+def povmPhysical (S : CMat) (Ms : List CMat) (eigss : List (List Rat)) (atolEq atolIneq : Rat) :
+    Option Bool := do
+  let a ← povmIdentitySum S atolEq
+  let b ← povmPsd Ms eigss atolIneq
+  some (physical a b)
+
+/-! ## Gate (HS matrix `n × n` real, row-major, `n = d²`) -/
+
+/-- first branch of gate.is_tp: `np.allclose(hs[0], e₀, atol=atol, rtol=0.0)` -/
+def tpRow (n : Nat) (hs : List Rat) (atol : Rat) : Option Bool :=
+  if hs.length ≠ n * n || n = 0 then none
+  else some ((hs.take n).zipIdx.all fun (x, j) => isClose x (if j = 0 then 1 else 0) atol gate_is_tp_row_rtol)
+
+/-- second branch: for every basis index α, `Tr[A(B_α)] = Σ_β hs[β][α]·Tr B_β` against `Tr B_α`
+(`t` = the traces `basis.diagonal().sum()`) -/
+def tpTrace (n : Nat) (t : List C) (hs : List Rat) (atol : Rat) : Option Bool :=
+  if hs.length ≠ n * n || t.length ≠ n then none
+  else allSome ((List.range n).map fun a => do
+    let col ← (List.range n).mapM fun b => hs[b * n + a]?
+    let after : C := ((col.zip t).foldl (fun acc (p : Rat × C) => acc + p.1 * p.2.1) 0,
+                      (col.zip t).foldl (fun acc (p : Rat × C) => acc + p.1 * p.2.2) 0)
+    let before ← t[a]?
+    isCloseCC after before atol gate_is_tp_trace_rtol)
+
+/-- gate.is_tp -/
+def isTp (onh0 : Bool) (n : Nat) (t : List C) (hs : List Rat) (atol : Rat) : Option Bool :=
+  if onh0 then tpRow n hs atol else tpTrace n t hs atol
+
+def gatePhysical (onh0 : Bool) (n : Nat) (t : List C) (hs : List Rat) (choi : CMat) (eigs : List Rat)
+    (atolEq atolIneq : Rat) : Option Bool := do
+  let a ← isTp onh0 n t hs atolEq
+  let b ← psdVerdict choi eigs atolIneq
+  some (physical a b)
+
+/-! ## MProcess -/
+
+/-- `np.sum(hss, axis=0)` -/
+def sumHss (n : Nat) (hss : List (List Rat)) : List Rat :=
+  hss.foldl (fun acc h => List.zipWith (· + ·) acc h) (List.replicate (n * n) 0)
+
+def mpSumTp (onh0 : Bool) (n : Nat) (t : List C) (hss : List (List Rat)) (atol : Rat) : Option Bool :=
+  if hss.any (fun h => h.length ≠ n * n) then none else isTp onh0 n t (sumHss n hss) atol
+
+def mpCp (chois : List CMat) (eigss : List (List Rat)) (atol : Rat) : Option Bool := povmPsd chois eigss atol
+
+def mpPhysical (onh0 : Bool) (n : Nat) (t : List C) (hss : List (List Rat)) (chois : List CMat)
+    (eigss : List (List Rat)) (atolEq atolIneq : Rat) : Option Bool := do
+  let a ← mpSumTp onh0 n t hss atolEq
+  let b ← mpCp chois eigss atolIneq
+  some (physical a b)
+
+/-! ## constructors: `if self.is_physicality_required and not self.is_physical(): raise ValueError` -/
+
+inductive Ctor | ok | notPhysical
+deriving DecidableEq, Repr
+
+def mk (required phys : Bool) : Ctor := if required && !phys then .notPhysical else .ok
+
+/-! ## origin / zero objects (`_generate_origin_obj`, `_generate_zero_obj`), `n = d²` -/
+
+def unit0 (c : Rat) (n : Nat) : List Rat := c :: List.replicate (n - 1) 0
+/-- state: `vec[0] = 1/np.sqrt(d)` (parameter `s`) -/
+def originState (n : Nat) (s : Rat) : List Rat := unit0 s n
+/-- POVM: `m` copies of `[np.sqrt(d)/m, 0, …]` (parameter `c`) -/
+def originPovm (n m : Nat) (c : Rat) : List (List Rat) := List.replicate m (unit0 c n)
+/-- gate: `hs[0][0] = 1` -/
+def originGate (n : Nat) : List Rat := unit0 1 (n * n)
+/-- mprocess: `m` copies of `hs[0][0] = 1/m` -/
+def originMp (n m : Nat) : List (List Rat) := List.replicate m (unit0 (1 / (m : Rat)) (n * n))
+def zeroVec (n : Nat) : List Rat := List.replicate n 0
+
+/-! ## driver -/
+
+def bit (b : Bool) : String := if b then "1" else "0"
+def obit (b : Option Bool) : String := match b with | some b => bit b | none => "x"
+
+def parseC? (re im : String) : Option (List C) := do
+  let r ← parseList? parseRat? re
+  let i ← parseList? parseRat? im
+  if r.length ≠ i.length then none else some (r.zip i)
+
+/-- split a flat list into `k` blocks of length `len` -/
+def blocks {α : Type} (len : Nat) : Nat → List α → List (List α)
+  | 0, _ => []
+  | k + 1, l => l.take len :: blocks len k (l.drop len)
+
+def handle (args : List String) : Option String :=
+  match args with
+  | ["isclose", a, b, atol, rtol] => do
+      let a ← parseRat? a; let b ← parseRat? b; let atol ← parseRat? atol; let rtol ← parseRat? rtol
+      some (bit (isClose a b atol rtol))
+  | ["state", d, re, im, eigs, ae, ai] => do
+      let d ← parseNat? d; let e ← parseC? re im; let eigs ← parseList? parseRat? eigs
+      let ae ← parseRat? ae; let ai ← parseRat? ai
+      let rho : CMat := ⟨d, e⟩
+      some s!"{obit (stateTraceOne rho ae)} {obit (isHermitian rho ai)} {obit (psdVerdict rho eigs ai)} {obit (statePhysical rho eigs ae ai)}"
+  | ["povm", d, m, sre, sim, mre, mim, eigs, ae, ai] => do
+      let d ← parseNat? d; let m ← parseNat? m
+      let s ← parseC? sre sim; let ms ← parseC? mre mim; let eigs ← parseList? parseRat? eigs
+      let ae ← parseRat? ae; let ai ← parseRat? ai
+      let Ms : List CMat := (blocks (d * d) m ms).map fun e => ⟨d, e⟩
+      let eigss := blocks d m eigs
+      some s!"{obit (povmIdentitySum ⟨d, s⟩ ae)} {obit (povmPsd Ms eigss ai)} {obit (povmPhysical ⟨d, s⟩ Ms eigss ae ai)}"
+  | ["tp", onh0, n, tre, tim, hs, atol] => do
+      let onh0 ← parseNat? onh0; let n ← parseNat? n; let t ← parseC? tre tim
+      let hs ← parseList? parseRat? hs; let atol ← parseRat? atol
+      some (obit (isTp (onh0 = 1) n t hs atol))
+  | ["gate", onh0, n, tre, tim, hs, cre, cim, eigs, ae, ai] => do
+      let onh0 ← parseNat? onh0; let n ← parseNat? n; let t ← parseC? tre tim
+      let hs ← parseList? parseRat? hs; let c ← parseC? cre cim; let eigs ← parseList? parseRat? eigs
+      let ae ← parseRat? ae; let ai ← parseRat? ai
+      let choi : CMat := ⟨n, c⟩
+      some s!"{obit (isTp (onh0 = 1) n t hs ae)} {obit (psdVerdict choi eigs ai)} {obit (gatePhysical (onh0 = 1) n t hs choi eigs ae ai)}"
+  | ["mp", onh0, n, m, tre, tim, hss, cre, cim, eigs, ae, ai] => do
+      let onh0 ← parseNat? onh0; let n ← parseNat? n; let m ← parseNat? m; let t ← parseC? tre tim
+      let hss ← parseList? parseRat? hss; let c ← parseC? cre cim; let eigs ← parseList? parseRat? eigs
+      let ae ← parseRat? ae; let ai ← parseRat? ai
+      let H := blocks (n * n) m hss
+      let chois : List CMat := (blocks (n * n) m c).map fun e => ⟨n, e⟩
+      let eigss := blocks n m eigs
+      some s!"{obit (mpSumTp (onh0 = 1) n t H ae)} {obit (mpCp chois eigss ai)} {obit (mpPhysical (onh0 = 1) n t H chois eigss ae ai)}"
+  | ["mk", req, phys] => do
+      let req ← parseNat? req; let phys ← parseNat? phys
+      some (match mk (req = 1) (phys = 1) with | .ok => "ok" | .notPhysical => "notPhysical")
+  | ["origin", ty, n, m, c] => do
+      let n ← parseNat? n; let m ← parseNat? m; let c ← parseRat? c
+      match ty with
+      | "state" => some (showList showRat (originState n c))
+      | "povm" => some (showList showRat (originPovm n m c).flatten)
+      | "gate" => some (showList showRat (originGate n))
+      | "mprocess" => some (showList showRat (originMp n m).flatten)
+      | _ => none
+  | ["atol0"] => some (showRat settings_atol)
+  | _ => none
+
 end QM.C01
